@@ -48,6 +48,8 @@ def main():
     ap.add_argument("--keep")
     ap.add_argument("--others", action="store_true")
     ap.add_argument("--no-suite", action="store_true")
+    ap.add_argument("--rev", default="HEAD",
+                    help="commit of /repo to evaluate against (default HEAD)")
     a = ap.parse_args()
     seed = os.path.abspath(a.seed)
     patch = os.path.join(seed, "patch.diff")
@@ -63,7 +65,8 @@ def main():
         # 'git apply --3way' can then merge a patch that was written against
         # an earlier commit (seeds outlive later fix: commits)
         subprocess.run(["git", "-C", REPO, "worktree", "add", "-q",
-                        "--detach", root, "HEAD"], check=True)
+                        "--detach", root, a.rev], check=True)
+        meta["evaluated_against"] = a.rev
         rc, out = run([PY, demo], {"PYTHONPATH": os.path.join(root, "src")},
                       cwd=root)
         meta["steps"]["demo_unpatched"] = {"exit": rc,
